@@ -377,7 +377,7 @@ def _tok_value(tok):
     if tok in ('T', 'F'):
         return ['log', 1 if tok == 'T' else 0, 1]
     if re.fullmatch(r'[+-]?\d+', tok):
-        return ['int', int(tok), 1]
+        return ['int', int(tok), 1] if abs(int(tok)) < 2 ** 30 else ['nonfinite', 2, 1]
     return _real_image(tok)
 
 
@@ -406,7 +406,7 @@ def parse_output(text, nruns):
                 tag, _, rest = line.partition(' ')
                 rest = rest.strip()
                 if tag == 'I':
-                    vals.append(['int', int(rest), 1])
+                    vals.append(['int', int(rest), 1] if abs(int(rest)) < 2 ** 30 else ['nonfinite', 2, 1])
                 elif tag == 'R':
                     vals.append(_real_image(rest))
                 elif tag == 'L':
